@@ -113,6 +113,16 @@ PendingOf(B) == Tag(B.ev.tel, "instrument") \o Tag(B.ev.sch, "scheduler") \o Tag
 NoLoss(em, lg, B) == \A x \in RangeOf(em) : CountIn(lg, x) + CountIn(PendingOf(B), x) >= CountIn(em, x)
 NoDup(em, lg) == \A x \in RangeOf(lg) : CountIn(lg, x) <= CountIn(em, x)
 
+(* each life-cycle transition of an observation is emitted at most once *)
+LifeCycle == {<<"instrument", "telescope", "started">>, <<"instrument", "telescope", "finished">>,
+              <<"buffer", "buffer", "added">>, <<"buffer", "buffer", "removed">>,
+              <<"scheduler", "queue", "added">>, <<"scheduler", "queue", "removed">>,
+              <<"scheduler", "allocation", "started">>, <<"scheduler", "allocation", "stopped">>}
+UniqueKinds(em) ==
+    \A i, j \in 1..Len(em) :
+        (i # j /\ <<em[i].a, em[i].r, em[i].e>> \in LifeCycle)
+        => ~(em[i].a = em[j].a /\ em[i].o = em[j].o /\ em[i].r = em[j].r /\ em[i].e = em[j].e)
+
 RowOK(A, row) == \A c \in DOMAIN TrueRow(A) : row[c] = TrueRow(A)[c]
 
 Report(ok, tag, i, what) == IF ok THEN TRUE ELSE PrintT(<<tag, tid, i, what>>)
@@ -171,6 +181,7 @@ TNext == /\ l < Len(Steps(tid))
                /\ Report(Len(rec.rows) = 0 \/ (Len(rec.rows) = 1 /\ RowOK(IF Boundary(A, B) \/ l = 1 THEN A ELSE bos, rec.rows[1])), "L1", l + 1, "C12.row")
                /\ Report(NoLoss(em2, lg2, B), "L1", l + 1, "C13.noloss")
                /\ Report(NoDup(em2, lg2), "L1", l + 1, "C13.nodup")
+               /\ Report(em2 = emit \/ UniqueKinds(em2), "L1", l + 1, "C13.unique")
                /\ IF l + 1 = Len(Steps(tid)) THEN EndChecks(TData.traces[tid], l + 1) ELSE TRUE
                /\ IF l = 1 /\ ~TData.traces[tid].cfg.api /\ ~MatchS(StartState, A)
                   THEN PrintT(<<"DRIFT", tid, 1, "INIT", {f \in DOMAIN Norm(A) : Norm(A)[f] # Norm(StartState)[f]}>>)
